@@ -16,8 +16,9 @@
 (*   state/connectivity, state/trading, state/order (abstracted to kinds),  *)
 (*   state/position (abstracted to the signed net quantity)                 *)
 (*                                                                         *)
-(* World (harness/src/world2.rs): exchanges 0,1; instruments 0..3 with      *)
-(* ExOf = <<0,0,0,1>>; instruments 0 and 1 share an underlying.             *)
+(* World (harness/src/world2.rs): exchanges 0,1; instruments 0..4 with      *)
+(* ExOf = <<0,0,0,0,1>>; instruments 0 and 1 share an underlying, 2 shares  *)
+(* only their base asset, 3 only their quote asset.                         *)
 (*                                                                         *)
 (* The step is a FUNCTION of (state, event, env): env = what the            *)
 (* environment contributes in this step - fault state of each execution    *)
@@ -42,8 +43,9 @@ VARIABLES st,          \* engine state  [trading, conn, inst]
 vars == <<st, seq, tick, dl, last>>
 
 NEX   == 2
-INST  == 0..3
-ExOf(i)  == IF i = 3 THEN 1 ELSE 0
+NI    == 5
+INST  == 0..(NI - 1)
+ExOf(i)  == IF i = 4 THEN 1 ELSE 0
 UndOf(i) == IF i = 1 THEN 0 ELSE i
 CLOSE == "x"
 
@@ -83,7 +85,7 @@ InstInit == [orders |-> [c \in CIDS |-> "U"], net |-> 0, priced |-> FALSE]
 StInit(tr) == [trading |-> tr,
                conn |-> [global |-> "Reconnecting",
                          ex |-> [e \in 1..NEX |-> [market |-> "Reconnecting", account |-> "Reconnecting"]]],
-               inst |-> [i \in 1..4 |-> InstInit]]
+               inst |-> [i \in 1..NI |-> InstInit]]
 
 OrderKind(s, i, c) == s.inst[i + 1].orders[c]
 SetKind(s, i, c, k) == [s EXCEPT !.inst[i + 1].orders[c] = k]
@@ -114,10 +116,10 @@ NUnrec(env, R) == Cardinality({r \in R : SendResult(env, r) = "unrec"})
 \* in-flight recording (C01's RecordOpen / RecordCancel on kinds)
 RecCancelKind(k) == CASE k = "OIF" -> "CIFn" [] k = "Open" -> "CIFo" [] OTHER -> k
 RecordCancels(s, R) ==
-  [s EXCEPT !.inst = [i \in 1..4 |-> [@[i] EXCEPT !.orders = [c \in CIDS |->
+  [s EXCEPT !.inst = [i \in 1..NI |-> [@[i] EXCEPT !.orders = [c \in CIDS |->
        IF \E r \in R : r.inst = i - 1 /\ r.cid = c THEN RecCancelKind(@[c]) ELSE @[c]]]]]
 RecordOpens(s, R) ==
-  [s EXCEPT !.inst = [i \in 1..4 |-> [@[i] EXCEPT !.orders = [c \in CIDS |->
+  [s EXCEPT !.inst = [i \in 1..NI |-> [@[i] EXCEPT !.orders = [c \in CIDS |->
        IF \E r \in R : r.inst = i - 1 /\ r.cid = c THEN "OIF" ELSE @[c]]]]]
 
 \* an output record of the audit tick (batches are sets)
